@@ -167,7 +167,7 @@ impl Property for C03 {
             }
         }
         if tier == Tier::Thorough {
-            let runs = std::env::var("XSGV_FUZZ_RUNS").ok().and_then(|s| s.parse().ok()).unwrap_or(125_000u64);
+            let runs = std::env::var("XSGV_FUZZ_RUNS").ok().and_then(|s| s.parse().ok()).unwrap_or(15_000u64);
             let seeds: Vec<Vec<u8>> = crate::runner::gen_tapes(self, seed ^ 0x7a9e, 200)
                 .into_iter()
                 .map(|t| {
